@@ -60,6 +60,15 @@ def gen(rng, tier):
             T.append([str(Fraction(c, sum(row))) for c in row])
         yield {'trajs': None, 'lag': 1, 'start': rng.randrange(k), 'steps': rng.choice([1, 2, 10, 100]), 'seed': rng.randrange(2**31),
                'alpha': 'tmat', 'tmat': T}
+    for _ in range(3 if tier == 'quick' else 60):       # user matrices with transitions of probability ~1e-6
+        k = rng.randint(2, 4)
+        T = []
+        for i in range(k):
+            row = [rng.randint(1, 4) if (j != i and rng.random() < 0.8) else 0 for j in range(k)]
+            row[i] = 10**6 - sum(row)
+            T.append([str(Fraction(c, 10**6)) for c in row])
+        yield {'trajs': None, 'lag': 1, 'start': rng.randrange(k), 'steps': rng.choice([10, 100]), 'seed': rng.randrange(2**31),
+               'alpha': 'tmat-rare', 'tmat': T}
 
 
 def corpus():
@@ -99,9 +108,18 @@ def related(trajs, lag, call):
         h = len(trajs[0]) // 2
         other = [trajs[0][:h].copy(), trajs[0][h:].copy()]
     else:
-        return
+        other = None
     try:
-        call(other)
+        if other is not None:
+            call(other)
+    except Exception:  # noqa
+        pass
+    try:
+        import msmhelper as mh
+        from implutil import refine
+        if sum(len(t) for t in trajs) > 3000 or len({int(v) for t in trajs for v in t}) > 12:
+            return
+        call(mh.LumpedStateTraj([t.copy() for t in trajs], refine(trajs)))
     except Exception:  # noqa
         pass
 
@@ -146,6 +164,28 @@ def impl(case):
         cm = np.cumsum(mh.msm.row_normalize_matrix(T), axis=1)
         perm = np.tile(np.arange(n), (n, 1))
         out['states'] = list(range(n))
+        # the sampling table propagate_tmat REALLY hands to the chain kernel (captured by wrapping the
+        # kernel symbol the module imported); falls back to the recomputed table when that symbol is gone
+        seen = []
+        inner = getattr(ds, '_propagate_MCMC', None)
+        if inner is None:
+            out['hook_local'] = 'datasets._propagate_MCMC is gone'
+        else:
+            def spy(*a, **kw):
+                c = kw.get('cummat', a[0] if a else None)
+                seen.append((np.array(c[0], dtype=float), np.array(c[1])))
+                return inner(*a, **kw)
+            ds._propagate_MCMC = spy
+            try:
+                ds.propagate_tmat(T, 2, start=0)
+            except Exception:  # noqa
+                pass
+            finally:
+                ds._propagate_MCMC = inner
+            if seen and seen[0][0].shape == cm.shape:
+                cm, perm = seen[0]
+            else:
+                out['hook_local'] = 'propagate_tmat no longer passes (cummat, perm) to _propagate_MCMC'
     if cm is not None:
         out['cm'] = [[float(x).hex() for x in r] for r in cm]
         out['perm'] = [[int(x) for x in r] for r in perm]
